@@ -229,8 +229,15 @@ func (c *Config) handleSvcEndpointUpdate(svcName string, added, removed []*servi
 
 	validAdded := make([]*service.Endpoint, 0, len(added))
 	for _, endpoint := range added {
-		_, ok := isContainEndpoint(sw.Endpoints, endpoint)
+		i, ok := isContainEndpoint(sw.Endpoints, endpoint)
 		if ok {
+			// a known address announced with another type (or state): the
+			// latest announcement counts. The host set of a processor replaces
+			// the host of an address which is added with another type.
+			if !sw.Endpoints[i].Equal(endpoint) {
+				sw.Endpoints[i] = endpoint
+				validAdded = append(validAdded, endpoint)
+			}
 			continue
 		}
 		sw.Endpoints = append(sw.Endpoints, endpoint)
